@@ -529,8 +529,9 @@ func finish(check *Check, tier string, st *Stats, scs []*Scenario, start time.Ti
 				out, err := exec.Command(exe, "--replay", tmp).CombinedOutput()
 				ee, isExit := err.(*exec.ExitError)
 				if !isExit || ee.ExitCode() != 1 || !strings.Contains(string(out), "signature="+sigToken(v.Signature)) {
-					os.Remove(tmp)
-					fatalf("race violation %s/%s (%s) did not reproduce in a fresh process from its schedule %v:\n%s", check.ID, v.Scenario, v.Signature, v.Choices, out)
+					v.Signature = "unstable:" + v.Signature
+					v.Detail = "NOT REPRODUCIBLE IN A FRESH PROCESS from its schedule alone.\n" + v.Detail
+					break
 				}
 			}
 			os.Remove(tmp)
@@ -551,7 +552,13 @@ func finish(check *Check, tier string, st *Stats, scs []*Scenario, start time.Ti
 					}
 				}
 				if !found {
-					fatalf("violation %s/%s (%s) did not reproduce from its choice vector %v - nondeterministic harness", check.ID, v.Scenario, v.Signature, v.Choices)
+					// The same choice vector gave another observation in this process than in the process
+					// that explored it. Every source of nondeterminism the harness knows of is a choice
+					// point, so the library's result depends on what the process did before: hidden state
+					// that outlives a call. That is a violation in its own right (and of C06 in particular).
+					v.Signature = "unstable:" + v.Signature
+					v.Detail = "NOT REPRODUCIBLE FROM ITS CHOICE VECTOR ALONE: observed in an exploring process, not when the same input was replayed in the master process - the result depends on earlier calls in the same process (state that outlives a call).\n" + v.Detail
+					break
 				}
 			}
 		}
@@ -614,7 +621,9 @@ func confirmRelation(check *Check, tier string, scs []*Scenario, v *ViolationRec
 		c1 := ex.runOnce(sc1, v.Choices, nil)
 		ex.account(sc1, c1, 0)
 		if _, ok := ex.Stats.Violations["relation|"+strings.TrimPrefix(v.Signature, "relation:")]; !ok {
-			fatalf("relation violation %s did not reproduce from %v / %v - nondeterministic harness", v.Signature, v.Choices, v.Choices2)
+			v.Signature = "unstable:" + v.Signature
+			v.Detail = "NOT REPRODUCIBLE FROM THE TWO CHOICE VECTORS ALONE: two executions that must agree differed in the exploring processes but agree when replayed in the master process - the result depends on earlier calls in the same process (state that outlives a call).\n" + v.Detail
+			return
 		}
 		if rep == 0 {
 			d1, d2 := "", ""
@@ -709,6 +718,8 @@ func writeEvidence(check *Check, tier string, st *Stats, start time.Time, nviol,
 // ---------------------------------------------------------------------------------------
 // replay
 
+// (signatures starting with "unstable:" mark violations that depend on process history; a replay of
+// the single execution is then expected to hold.)
 func replayMain(path string) int {
 	b, err := os.ReadFile(path)
 	if err != nil {
